@@ -116,10 +116,6 @@ func c41Compare(s *orcStep, res *run.Result, after *orcState, outcome string) {
 		// unparsable keys are refused before anything is touched; still compared
 		addressesNested = false
 	}
-	where := "nested-board"
-	if b == 0 {
-		where = "root-board"
-	}
 	reported := false
 	for x := range pre.Boards {
 		if x == b || pre.inherits(x, b) {
@@ -161,18 +157,21 @@ func c41Compare(s *orcStep, res *run.Result, after *orcState, outcome string) {
 			rel = "nested-in-target"
 		}
 		res.Inc("boards_compared_after_" + outcome)
+		if s.Trigger == "" {
+			res.Inc("boards_compared_without_trigger")
+		}
 		res.Inc("boards_compared_" + strings.ReplaceAll(rel, "-", "_"))
 		j := after.boardIndex(pre.Boards[x].Key)
 		if j < 0 {
 			reported = true
-			orcViol(res, "C41.other-board-vanished", "C41.other-board-vanished:"+rel+":"+s.Call.Kind+":"+outcome+":"+where,
+			orcViol(res, "C41.other-board-vanished", orcSig(s, "C41", "other-board-vanished", rel+":"+s.Call.Kind+":"+outcome),
 				fmt.Sprintf("edit addressed to board %q: board %s (%s) no longer exists\n%s", s.Call.Board, pre.Boards[x].Key, rel, c41Describe(s, after)))
 			continue
 		}
 		a, bb := pre.snap(x).Pi, after.snap(j).Pi
 		if a != bb {
 			reported = true
-			orcViol(res, "C41.other-board-changed", "C41.other-board-changed:"+rel+":"+s.Call.Kind+":"+outcome+":"+where,
+			orcViol(res, "C41.other-board-changed", orcSig(s, "C41", "other-board-changed", rel+":"+s.Call.Kind+":"+outcome),
 				fmt.Sprintf("edit addressed to board %q (%s) changed board %s (%s):\n%s\n%s", s.Call.Board, outcome, pre.Boards[x].Key, rel, proj.Diff(a, bb), c41Describe(s, after)))
 		}
 	}
